@@ -418,7 +418,20 @@ func (ex *Exec) applyContract(ct *Contract, key string, sig *types.Signature, na
 			rv = &Val{T: ref, Ty: res.At(0).Type()}
 		}
 	} else {
+		var freshRef *Term
+		if ct.Fresh && res.Len() > 1 {
+			// multi-result callee declared fresh: its first result, when a pointer, is a newly allocated object
+			// (or nil: the contract's postconditions say when)
+			if _, isPtr := res.At(0).Type().Underlying().(*types.Pointer); isPtr {
+				ref := ex.allocRef()
+				freshRef = &ref
+			}
+		}
 		rv = ex.freshResults(res, "r."+shortKey(key))
+		if freshRef != nil && len(rv.Tuple) > 0 {
+			r0 := rv.Tuple[0].T
+			c.assume(Implies(ex.rch, Or(Eq(r0, IntLit("0")), Eq(r0, *freshRef))))
+		}
 	}
 	post := &Env{ex: ex, st: ex.st, old: old, vars: env.vars, pkg: pkg, ct: ct, defs: env.defs, defSt: env.defSt, where: key}
 	post.vars = map[string]Val{}
